@@ -155,14 +155,16 @@ fn vk_c09_readonly_scalar() { readonly_step(3); }
 #[kani::unwind(5)]
 fn vk_c09_readonly_unset_kinds() { let k: u8 = any_below(3); readonly_step(k); }
 
-fn kind_table_step(k: u8) {
+fn kind_table_step(k: u8) { kind_table_step_w(k, 0, 6) }
+fn kind_table_step_w(k: u8, wlo: u8, whi: u8) {
     let mut v = mk(k);
     let w: u8 = any_below(6);
+    kani::assume(w >= wlo && w < whi);
     let n0 = nelems(&v);
     let failed = write(&mut v, w);
     let k1 = kind(&v);
-    kani::cover!(w == 3, "array_append");
-    kani::cover!(w == 0, "scalar_assignment");
+    kani::cover!(w == 3 || wlo > 3 || whi <= 3, "array_append");
+    kani::cover!(w == 0 || wlo > 0, "scalar_assignment");
     assert!(!failed, "C09.kinds.writable_variable_accepts_every_assignment_form");
     // bash's table: an associative variable stays associative, an indexed one stays indexed; a scalar or untyped variable becomes
     // indexed when given an array literal or an element; a scalar assigned to an array variable goes to element 0
@@ -194,10 +196,20 @@ fn vk_c09_kind_table_scalar() { kind_table_step(3); }
 #[kani::unwind(5)]
 fn vk_c09_kind_table_indexed() { kind_table_step(4); }
 
-//@proof {'props': ['C09'], 'tier': 'quick', 'timeout': 900, 'uses': ['variables_file'], 'bounds': 'associative array with one element; assignment form symbolic (6 forms)', 'desc': 'assignment-kind table from an associative array: stays associative'}
+//@proof {'props': ['C09'], 'tier': 'thorough', 'timeout': 2400, 'uses': ['variables_file'], 'bounds': 'associative array with one element; scalar forms x=v, x+=v', 'desc': 'assignment-kind table from an associative array, scalar forms: stays associative, the scalar goes to element "0"'}
 #[kani::proof]
 #[kani::unwind(5)]
-fn vk_c09_kind_table_assoc() { kind_table_step(5); }
+fn vk_c09_kind_table_assoc_scalar_forms() { kind_table_step_w(5, 0, 2); }
+
+//@proof {'props': ['C09'], 'tier': 'thorough', 'timeout': 2400, 'uses': ['variables_file'], 'bounds': 'associative array with one element; array forms x=(v), x+=(v)', 'desc': 'assignment-kind table from an associative array, array-literal forms: stays associative; (v) replaces, +=(v) adds'}
+#[kani::proof]
+#[kani::unwind(5)]
+fn vk_c09_kind_table_assoc_array_forms() { kind_table_step_w(5, 2, 4); }
+
+//@proof {'props': ['C09'], 'tier': 'thorough', 'timeout': 2400, 'uses': ['variables_file'], 'bounds': 'associative array with one element; element forms x[0]=v, x[0]+=v', 'desc': 'assignment-kind table from an associative array, element forms: stays associative, element count unchanged'}
+#[kani::proof]
+#[kani::unwind(5)]
+fn vk_c09_kind_table_assoc_element_forms() { kind_table_step_w(5, 4, 6); }
 
 //@proof {'props': ['C09'], 'tier': 'thorough', 'timeout': 900, 'uses': ['variables_file'], 'bounds': 'declared-but-unset variable of each kind; assignment form symbolic', 'desc': 'assignment-kind table from declared-but-unset variables (declare x / declare -a x / declare -A x)'}
 #[kani::proof]
